@@ -292,6 +292,10 @@ void vf_case(Ctx& c) {
     c.tag(before_precise ? "two-pset: pset_before = projection of the relation on x" : "two-pset: pset_after carries state constraints not entailed by pset_before");
   }
   const std::string prx = before_precise ? "" : ".state_constraints_in_after";
+  // KF-C18-1: the PR tests in the two-pset form only look for the lower bound of the ranking function among the constraints
+  // of pset_before: incomplete when pset_after carries state constraints that pset_before does not entail.
+  const bool skip_prx = !before_precise && vf::kf("KF-C18-1");
+  if (skip_prx) c.excluded("KF-C18-1");
 
   // oracle verdict
   bool exists = true; Vec omu;
@@ -333,17 +337,17 @@ void vf_case(Ctx& c) {
     c.check("verdict.sound.pr" + sfx, !r.tpr || exists, [&] { return "termination_test_PR" + sfx + " answers true but no affine ranking function exists;" + ctx(); });
     if (closed_poly) {
       c.check("verdict.complete.ms" + sfx, r.tms || !exists, [&] { return "termination_test_MS" + sfx + " answers false although " + show_mu(omu, n) + " is a ranking function;" + ctx(); });
-      c.check("verdict.complete.pr" + sfx + prx, r.tpr || !exists, [&] { return "termination_test_PR" + sfx + " answers false although " + show_mu(omu, n) + " is a ranking function;" + ctx(); });
-      c.check("verdict.ms_eq_pr" + sfx + prx, r.tms == r.tpr, [&] { return "MS and PR disagree;" + ctx(); });
+      if (!skip_prx) c.check("verdict.complete.pr" + sfx + prx, r.tpr || !exists, [&] { return "termination_test_PR" + sfx + " answers false although " + show_mu(omu, n) + " is a ranking function;" + ctx(); });
+      if (!skip_prx) c.check("verdict.ms_eq_pr" + sfx + prx, r.tms == r.tpr, [&] { return "MS and PR disagree;" + ctx(); });
     }
     else {
       // beyond the required one-directional statement (separate ids)
       c.check(std::string("verdict.complete.other.ms") + sfx, r.tms || !exists, [&] { return "termination_test_MS" + sfx + " (" + KS[k.kind] + ") answers false although " + show_mu(omu, n) + " is a ranking function;" + ctx(); });
-      c.check(std::string("verdict.complete.other.pr") + sfx + prx, r.tpr || !exists, [&] { return "termination_test_PR" + sfx + " (" + KS[k.kind] + ") answers false although " + show_mu(omu, n) + " is a ranking function;" + ctx(); });
+      if (!skip_prx) c.check(std::string("verdict.complete.other.pr") + sfx + prx, r.tpr || !exists, [&] { return "termination_test_PR" + sfx + " (" + KS[k.kind] + ") answers false although " + show_mu(omu, n) + " is a ranking function;" + ctx(); });
     }
     if (k.family == F_TERM && closed_poly) {
       c.check("planted.term.ms" + sfx, r.tms, [&] { return "planted terminating loop not recognised by MS;" + ctx(); });
-      c.check("planted.term.pr" + sfx + prx, r.tpr, [&] { return "planted terminating loop not recognised by PR;" + ctx(); });
+      if (!skip_prx) c.check("planted.term.pr" + sfx + prx, r.tpr, [&] { return "planted terminating loop not recognised by PR;" + ctx(); });
     }
     if (k.family == F_FIX || k.family == F_CYCLE) {
       c.check("planted.nonterm.ms" + sfx, !r.tms, [&] { return "relation with a cycle accepted by MS;" + ctx(); });
@@ -384,7 +388,8 @@ void vf_case(Ctx& c) {
       // every function is a ranking function of the empty relation (the templates return the universe for an empty pset)
       // (the templates special-case pset.is_empty() / pset_before.is_empty() only)
       const bool documented_path = !k.conv2 || k.empty_before;
-      c.check(nm + (documented_path ? ".empty_relation.universe" : ".empty_relation.universe.before_nonempty"), ref::equal(sc, Sys(n + 1)), [&] { return nm + ": relation is empty but mu_space is " + show_sys(sc) + ";" + ctx(); });
+      if (!documented_path) { c.tag("empty relation with a non-empty pset_before: mu_space need not be the universe (not a C18 statement)"); continue; }
+      c.check(nm + ".empty_relation.universe", ref::equal(sc, Sys(n + 1)), [&] { return nm + ": relation is empty but mu_space is " + show_sys(sc) + ";" + ctx(); });
       continue;
     }
     if (!nonempty) continue;
@@ -413,11 +418,11 @@ void vf_case(Ctx& c) {
       bool in = sc.sat(mu);
       c.check(nm + ".sample.valid", !in || v.ok(), [&] { return nm + ": " + show_mu(mu, n) + " lies in mu_space but is not a ranking function: " + v.str() + "; mu_space " + show_sys(sc) + ";" + ctx(); });
       // documented "space of ALL affine ranking functions" (beyond C18): MS normalises f >= 0, decrease >= 1
-      if (closed_poly) c.check(nm + ".exact.missing" + (which ? prx : std::string()), in || !(which ? v.ok() : v.strong()), [&] { return nm + ": " + show_mu(mu, n) + " is a ranking function (" + v.str() + ") but is not in mu_space " + show_sys(sc) + ";" + ctx(); });
+      if (closed_poly && !(skip_prx && which)) c.check(nm + ".exact.missing" + (which ? prx : std::string()), in || !(which ? v.ok() : v.strong()), [&] { return nm + ": " + show_mu(mu, n) + " is a ranking function (" + v.str() + ") but is not in mu_space " + show_sys(sc) + ";" + ctx(); });
     }
     if (k.family == F_TERM) {
       Vec mu(n + 1); for (size_t j = 0; j < n; ++j) mu[j] = Q(k.f.a[j]) * Q(k.fk); mu[n] = Q(k.f.b) * Q(k.fk);
-      c.check(nm + ".complete.planted" + (which ? prx : std::string()), sc.sat(mu), [&] { return nm + ": planted function " + show_mu(mu, n) + " missing from mu_space " + show_sys(sc) + ";" + ctx(); });
+      if (!(skip_prx && which)) c.check(nm + ".complete.planted" + (which ? prx : std::string()), sc.sat(mu), [&] { return nm + ": planted function " + show_mu(mu, n) + " missing from mu_space " + show_sys(sc) + ";" + ctx(); });
     }
   }
 
